@@ -1,5 +1,5 @@
 use super::Graph;
-use crate::{ext::vec::VecExt, Edge, Error, ErrorKind, Node, AdjacentNode};
+use crate::{ext::iterator::sum_sorted, ext::vec::VecExt, Edge, Error, ErrorKind, Node, AdjacentNode};
 use itertools::Itertools;
 use std::collections::{HashMap, HashSet};
 use std::fmt::Display;
@@ -1031,7 +1031,7 @@ where
     pub fn size(&self, weighted: bool) -> f64 {
         match weighted {
             false => self.get_all_edges().len() as f64,
-            true => self.get_all_edges().iter().map(|e| e.weight).sum(),
+            true => sum_sorted(self.get_all_edges().iter().map(|e| e.weight)),
         }
     }
 
